@@ -62,7 +62,47 @@ func Float64ListToDecimalIntList(dst []int64, src []float64) ([]int64, int16, er
 		}
 		decimals[i] = scaled
 	}
+	// The decoder rebuilds every value with float64 arithmetic, which is exact only for small mantissas and
+	// exponents. Refuse any list it would not reproduce exactly, so that the caller falls back to its
+	// lossless encoding. (Zero variants compare equal: -0 is deliberately stored as 0.)
+	scale := newDecimalScale(minExp)
+	for i, d := range decimals {
+		if scale.toFloat64(d) != src[i] {
+			return nil, 0, errCannotEncodeLossless
+		}
+	}
 	return decimals, minExp, nil
+}
+
+// decimalScale turns a scaled decimal integer back into a float64. Encoder (verification) and decoder share
+// it so that both perform exactly the same arithmetic.
+type decimalScale struct {
+	divisors    []float64
+	divisorsBuf [4]float64
+	scale       float64
+	multiply    bool
+}
+
+func newDecimalScale(exponent int16) *decimalScale {
+	s := &decimalScale{}
+	if exponent >= 0 {
+		s.multiply = true
+		s.scale = math.Pow10(int(exponent))
+		return s
+	}
+	s.divisors = computeDivisors(int(-exponent), s.divisorsBuf[:0])
+	return s
+}
+
+func (s *decimalScale) toFloat64(v int64) float64 {
+	if s.multiply {
+		return float64(v) * s.scale
+	}
+	result := float64(v)
+	for _, d := range s.divisors {
+		result /= d
+	}
+	return result
 }
 
 // DecimalIntListToFloat64List restores float64 values from scaled int64s using a decimal exponent.
@@ -72,21 +112,9 @@ func DecimalIntListToFloat64List(dst []float64, values []int64, exponent int16, 
 	if len(values) == 0 {
 		return dst[:0], nil
 	}
-	if exponent >= 0 {
-		scale := math.Pow10(int(exponent))
-		for _, v := range values {
-			dst = append(dst, float64(v)*scale)
-		}
-	} else {
-		var divisorsBuf [4]float64
-		divisors := computeDivisors(int(-exponent), divisorsBuf[:0])
-		for _, v := range values {
-			result := float64(v)
-			for _, d := range divisors {
-				result /= d
-			}
-			dst = append(dst, result)
-		}
+	scale := newDecimalScale(exponent)
+	for _, v := range values {
+		dst = append(dst, scale.toFloat64(v))
 	}
 	return dst, nil
 }
